@@ -11,6 +11,7 @@ import os
 import re
 import subprocess
 import vcheck
+import vworker
 from vcheck import coq_string, coq_list, coq_z
 
 HEADER = "From V.C10 Require Import Spec Model Lock Run.\nOpen Scope string_scope.\n"
@@ -73,9 +74,14 @@ def rand_op(rng, nextfile, used, scalars=False, names=NAMES):
     return {"op": "getfile", "name": rng.choice(FILES)}
 
 
-def run_lines(cmd, lines, timeout=1500):
-    p = subprocess.run(cmd, input="\n".join(lines) + "\n", stdout=subprocess.PIPE, stderr=subprocess.PIPE, text=True, timeout=timeout)
-    return [json.loads(l) for l in p.stdout.splitlines() if l.strip()], p.returncode, p.stderr
+def run_lines(cmd, lines, timeout=400):
+    """one JSON line in, one out; a dead or hanging worker is attributed to its line (vworker) and restarted"""
+    return vworker.run_worker(cmd, [json.loads(l) for l in lines], per_case_timeout=timeout), 0, ""
+
+
+def death_violation(ck, mode, case, info):
+    ck.violation("worker-death:%s:%s" % (mode, info.get("signature")), {"mode": mode, "case": case, "impl_out": info,
+                 "clause": "the engine process died or hung while running this case (crash / deadlock)"})
 
 
 def gen_threads(rng, nthreads, nops, scalars, bias=None):
@@ -195,10 +201,15 @@ def main(ck):
     terms = []
     if seqs:
         outs, rc, err = run_lines([binary, "seq"], [json.dumps(c) for c in seqs])
-        if len(outs) != len(seqs):
-            ck.log("seq engine returned %d/%d\n%s" % (len(outs), len(seqs), err[-1500:]))
-            ck.broken.append("harness-run:seq")
-        else:
+        if True:
+            live = []
+            for c, o in zip(seqs, outs):
+                if "worker_death" in o:
+                    death_violation(ck, "seq", c, o["worker_death"])
+                else:
+                    live.append((c, o))
+            seqs = [c for c, o in live]
+            outs = [o for c, o in live]
             for c, o in zip(seqs, outs):
                 terms.append("(%s, %s)" % (coq_list(coq_call(x, i) for i, x in enumerate(c["ops"])),
                                            coq_list(coq_obs(r) for r in o["res"])))
@@ -226,6 +237,9 @@ def main(ck):
     souts, rc, err = run_lines([racebin, "stress"], [json.dumps(c) for c in stress]) if stress else ([], 0, "")
     nrace = 0
     for c, o in zip(stress, souts):
+        if "worker_death" in o:
+            death_violation(ck, "stress", dict(c, threads=[t[:40] for t in c["threads"]]), o["worker_death"])
+            continue
         if o.get("exit", 0) != 0 or o.get("race") or o.get("fatal"):
             nrace += 1
             fns = sorted(set(re.findall(r"runtime\.\(\*VM\)\.(\w+)", " ".join(o.get("report", [])))))
@@ -234,8 +248,6 @@ def main(ck):
             ck.violation(key, {"mode": "stress", "case": small, "note": "thread programs truncated to 40 ops in this replay; regenerate with the seed for the full run",
                                "impl_out": {k: o.get(k) for k in ("exit", "race", "fatal", "report")},
                                "clause": "no crash / no data race (well_locked_race_free instantiated to the regenerated table)"})
-    if stress and len(souts) != len(stress):
-        ck.broken.append("harness-run:stress")
 
     # recorded histories (stamps): small ones searched for a linearization, big ones checked for the consequences
     hist_small, hist_big = [], []
@@ -266,6 +278,9 @@ def main(ck):
         k = 0
         for bi, bo in enumerate(bouts):
             chunk = lst[bi * 50:(bi + 1) * 50]
+            if "worker_death" in bo:
+                death_violation(ck, "hist-" + tag, {"batch_of": len(chunk), "first": chunk[0]}, bo["worker_death"])
+                continue
             res = bo.get("results") or []
             for ci, cfg in enumerate(chunk):
                 if ci < len(res):
